@@ -1,13 +1,13 @@
 package zv
 
 import (
-	"unicode"
 	"bytes"
 	"fmt"
 	"go/constant"
 	"go/token"
 	"go/types"
 	"strings"
+	"unicode"
 
 	"golang.org/x/tools/go/ssa"
 )
